@@ -12,6 +12,7 @@ use std::hash::{Hash, Hasher};
 verus! {
 
 //@include _shared/bus_filter_prelude.rs
+broadcast use {trusted::axiom_filter_key_model, vstd::std_specs::hash::group_hash_axioms};
 
 // the channel to the listener's stream (futures_channel::mpsc): opaque; what is sent is not part of the state model
 #[verifier::external_body]
